@@ -402,7 +402,83 @@ def masks(env, sock, mode="reh"):       # noqa: F811 - also accepts a raw descri
     return _masks_sock(env, sock, mode)
 
 
-SCENARIOS = [("pipe-masks", sc_pipe_masks, ("tcp",)),
+def sc_close_vs_blocked_poller(env, fam):
+    """one thread sleeps in poll() on a socket, another closes the socket object WITHOUT shutdown: the sleeper is not woken
+    (it holds the open file), and the peer sees no end-of-stream while it sleeps"""
+    lst, c, s = pair(env, fam)
+    res = {}
+
+    def poller():
+        p = env.Poll()
+        p.register(s.fileno(), "r")
+        r = p.poll(0.6)
+        res["poll"] = [m for _, m in r]
+    t = env.spawn(poller)
+    env.sleep(0.15)
+    s.close()
+    env.sleep(0.15)
+    c.settimeout(0.05)
+    try:
+        res["peer-during"] = "eof" if c.recv(1) == b"" else "data"
+    except OSError as e:
+        res["peer-during"] = errname(e)
+    env.join(t, 2)
+    env.sleep(0.1)
+    try:
+        res["peer-after"] = "eof" if c.recv(1) == b"" else "data"
+    except OSError as e:
+        res["peer-after"] = errname(e)
+    c.close()
+    lst.close()
+    return res
+
+
+def sc_close_vs_blocked_reader(env, fam):
+    lst, c, s = pair(env, fam)
+    s.settimeout(0.6)
+    res = {}
+
+    def reader():
+        try:
+            res["recv"] = "eof" if s.recv(1) == b"" else "data"
+        except OSError as e:
+            res["recv"] = errname(e)
+    t = env.spawn(reader)
+    env.sleep(0.15)
+    s.close()
+    env.sleep(0.15)
+    res["reader-still-blocked"] = "recv" not in res
+    env.join(t, 2)
+    c.close()
+    lst.close()
+    return res
+
+
+def sc_shutdown_wakes_poller(env, fam):
+    lst, c, s = pair(env, fam)
+    res = {}
+
+    def poller():
+        p = env.Poll()
+        p.register(s.fileno(), "r")
+        r = p.poll(0.6)
+        res["poll"] = [m for _, m in r]
+    t = env.spawn(poller)
+    env.sleep(0.15)
+    s.shutdown(env.socket.SHUT_RDWR)
+    env.sleep(0.1)
+    res["woken-early"] = "poll" in res
+    s.close()
+    env.join(t, 2)
+    c.close()
+    lst.close()
+    return res
+
+
+SCENARIOS = [("close-vs-blocked-poller", sc_close_vs_blocked_poller, ("tcp", "unix")),
+             ("close-vs-blocked-reader", sc_close_vs_blocked_reader, ("tcp", "unix")),
+             ("shutdown-wakes-poller", sc_shutdown_wakes_poller, ("tcp", "unix")),
+             ("pipe-masks", sc_pipe_masks, ("tcp",)),
              ("getpeername-after-reset", sc_getpeername_after_reset, ("tcp",)),
              ("eof-after-drain", sc_eof_after_drain, ("tcp", "unix")), ("closed-socket-ops", sc_closed_socket_ops, ("tcp",)),
              ("send-after-peer-close", sc_send_after_peer_close, ("tcp", "unix")), ("shutdown-wakes-reader", sc_shutdown_wakes_reader, ("tcp", "unix")),
